@@ -342,6 +342,21 @@ func checkC18(c *Ctx, e *Env) {
 			c.Hold("C18.PARAM", "parse:"+k, a.pos, fmt.Sprintf("consumer parse class implied by the validator on all %d path visits", a.n), nil)
 		}
 	}
+	importObligations(c, e, checkC09, "C09", "C18.SETVALID", "governance setters#validated-like-genesis", "what a governance message can store in a parameter table satisfies the table's state validator — the bounds consumers rely on (a seller fee rate of at most 1, …) are enforced on the setter path as they are at genesis", func(o *Oblig) bool {
+		if o.Rule != "C09.AGREE" {
+			return false
+		}
+		i := strings.Index(o.Construct, " ← ")
+		if i < 0 {
+			return false
+		}
+		hk := o.Construct[i+len(" ← "):]
+		if j := strings.Index(hk, "#"); j > 0 {
+			hk = hk[:j]
+		}
+		h := r.byKey[hk]
+		return h != nil && h.EP.SignerField == "Authority"
+	})
 	c.Min("parameter parse sites", 2, len(pks))
 	// ---------------- PARAM: NewCoin amounts and bank coins
 	bound := feeVal.Attrs["parse(req.SellerPercentageFee)"].NonNeg
